@@ -58,14 +58,15 @@ _ALL = {
         technique="null-code preservation (taint + idiom table), fact-walker dominance, route table",
     ),
     "C03": dict(
-        want=["M1", "M2", "M3", "M4", "M5", "D2", "D6b", "D9", "S2", "K2", "M6", "P7b", "P18", "M9"],
+        want=["M1", "M2", "M3", "M4", "M5", "D2", "D6b", "D9", "S2", "K2", "M6", "P7b", "P18", "M9", "D9b"],
         explanation=("Decides the structural causes of strategy dependence: every merge of partial results receives the "
                      "accumulated count (M1) which is updated after the merge (M2); parallel_map places results by submission "
                      "index (M3); all row-aligned arrays are split by one splitter (M4); pointer lookups are offset by the "
                      "first chunk in the mask (M5); merge reducers are MERGE[class] (D2); every consumer of global codes is "
                      "dominated by unification (S2)."
                      ' Also: null-code preservation (K2); slice-start normalisation (M6); order-preserving label union and looked-up pointer tables (P7b); per-thread chunks cover the whole array (P18).'
-                     " The merge target of a value column takes its dtype from that column's partials (M9)."),
+                     " The merge target of a value column takes its dtype from that column's partials (M9)."
+                     ' A positional mask is not converted by an order- and multiplicity-forgetting scatter on the chunked route only (D9b).'),
         not_decided=["floating-point agreement of sums/means", "the 1,000,000-row thresholds (constants)",
                      "thread schedules are covered structurally by M3, not explored"],
         technique="call-site binding rules, def-use on the completion loop, typestate of the key representation",
@@ -84,13 +85,14 @@ _ALL = {
         technique="GCNF decision tables + algebraic laws on tables; dispatch folding; call-site rules",
     ),
     "C05": dict(
-        want=["K3", "A3m", "M4", "M5", "P3", "D9", "M6", "E3", "M7", "M8"],
+        want=["K3", "A3m", "M4", "M5", "P3", "D9", "M6", "E3", "M7", "M8", "K7", "D9b"],
         explanation=("Decides masked-row non-interference: in every kernel with a mask parameter, every store to per-group "
                      "state on a path where the row is not provably selected is an identity (K3, path enumeration with a "
                      "symbolic store); the mask is forwarded at every delegation that has one (A3m); slice masks are applied "
                      "to keys and values together and mask chunks/pointers are offset consistently (M4, M5); the observed "
                      "filter is recomputed under the mask (P3)."
-                     ' Also: slice start normalised before the first chunk is located (M6); row-aligned inputs of one kernel call are re-ordered by one indexer (M7); a sliced key is never paired with the raw mask (M8); in the timed EMA the clock moves exactly where the state was decayed (E3).'),
+                     ' Also: slice start normalised before the first chunk is located (M6); row-aligned inputs of one kernel call are re-ordered by one indexer (M7); a sliced key is never paired with the raw mask (M8); in the timed EMA the clock moves exactly where the state was decayed (E3).'
+                     ' A mask is bound into the row-wise kernels (which read mask[row] as a truth value) only after it was established to be boolean, on every path (K7); positions are never turned into a boolean row mask by scatter unless established strictly increasing (D9b: repeated / unordered positions).'),
         not_decided=["slice arithmetic with negative/None bounds", "fancy->boolean conversion",
                      "equality with the filtered run as a two-execution relation"],
         technique="path enumeration + symbolic identity detection; parameter-forwarding rule over resolved call sites",
@@ -114,35 +116,38 @@ _ALL = {
         technique="taint analysis of index spaces; typestate; path rule",
     ),
     "C08": dict(
-        want=["T1", "U1", "U2", "K1@cumulative", "K3@cumulative", "K4@cumulative", "T3", "P1", "P8", "D4"],
+        want=["T1", "U1", "U2", "K1@cumulative", "K3@cumulative", "K4@cumulative", "T3", "P1", "P8", "D4", "K7"],
         explanation=("Decides the structure of the per-group prefix reduction: reducer tables (T1, skip and non-skip pairs); "
                      "the running value is read from the output at the group's previous accepted row (U1) and per-group "
                      "bookkeeping is updated only on accepted rows (U2); null keys skipped (K1), masked rows do not interfere "
                      "(K3); accumulator dtype table has no float detour (T3); temporal cast/restore pairing on all paths "
                      "(P1); null-key post-fill (P8); cum-op -> reducer dispatch (D4)."
-                     ' Also: the cumulative count array is at least 32 bit (K4).'),
+                     ' Also: the cumulative count array is at least 32 bit (K4).'
+                     ' The cumulative kernels receive boolean masks only (K7).'),
         not_decided=["'last cumulative value equals the reduction' as a value relation (follows by induction, not performed)"],
         technique="GCNF tables; loop-body obligations; path pairing rule",
     ),
     "C09": dict(
-        want=["K1@rolling", "K3@rolling", "K4@rolling", "K5", "D3", "P10", "P11b", "D3b", "W1", "W2", "W3", "W4"],
+        want=["K1@rolling", "K3@rolling", "K4@rolling", "K5", "D3", "P10", "P11b", "D3b", "W1", "W2", "W3", "W4", "K7"],
         explanation=("Decides the periphery of the rolling kernels, not the window arithmetic: null/mask guards (K1, K3); "
                      "counter width (K4); dtype provenance on selection paths so min/max/shift return input elements exactly "
                      "(K5); op -> kernel/flag dispatch and flag -> orientation (D3); restoration keeps the input's time unit (P10)."
                      " Also: the comparison with the running extremum is guarded by the group's non-null count (D3b); group-sorted results are indexed by the inputs' common index (P11b)."
-                     ' The whole buffer row is rescanned only when the buffer is full (W4).'),
+                     ' The whole buffer row is rescanned only when the buffer is full (W4).'
+                     ' The rolling / shift / diff kernels receive boolean masks only (K7).'),
         not_decided=["circular-buffer arithmetic (eviction, wrap, recomputation of the extremum, min_periods) — loop "
                      "invariants over runtime quantities", "the group-sorted layout"],
         technique="fact walker, path enumeration, dtype-provenance classification, dispatch folding",
     ),
     "C10": dict(
-        want=["K1@ema", "E1", "E2", "E3", "A2", "K3@ema", "M7", "E4", "E5", "E6", "E7", "P24"],
+        want=["K1@ema", "E1", "E2", "E3", "A2", "K3@ema", "M7", "E4", "E5", "E6", "E7", "P24", "K7"],
         explanation=("Decides the periphery of the EMA, not the closed form: null-key guard in the grouped kernels (K1); "
                      "invalid rows read the group's own carried value (E2); the halflife->alpha conversion is the same "
                      "function of the raw parameter in both entry points (E1); the alignment decorator names real "
                      "parameters (A2); masked rows (K3, with the documented exemption and known finding)."
                      ' Also: the time-weighted kernel advances the clock exactly where it decays (E3, both directions); the alpha kernels multiply the running state by beta exactly once on every row path (E4); row-aligned inputs are re-ordered by one indexer (M7); on every valid-row path of the four adjusted kernels out = (x + R)/(1 + W) followed by R += x and W += 1 (E5).'
-                     ' ema / ema_grouped dispatch only to the kernels of their own family (E6); the per-group clock of the timed kernel is an integer array (E7); integer views of timestamps are taken only after an explicit unit normalisation and zones are never dropped with tz_localize(None) (P24).'),
+                     ' ema / ema_grouped dispatch only to the kernels of their own family (E6); the per-group clock of the timed kernel is an integer array (E7); integer views of timestamps are taken only after an explicit unit normalisation and zones are never dropped with tz_localize(None) (P24).'
+                     ' The grouped EMA kernels receive boolean masks only (K7).'),
         not_decided=["the closed form, alpha/beta arithmetic, time decay, equality of grouped and ungrouped series"],
         technique="fact walker; expression normal-form comparison; decorator-name rule",
     ),
